@@ -526,17 +526,26 @@ theorem sc_twelve_undecodable (c : CodecImpl) (conv : List Int → List Int) (ts
   simp only [h21, ↓reduceIte]
   exact pydicomNative_refuses_allocated conv _ _ _ _ _ (by rw [hBA]; decide)
 
-/-- the same through a lossless codec (RLE, JPEG-LS) -/
-theorem sc_encapsulated_decodes (c : CodecImpl) (hc : c.Lossless) (conv : List Int → List Int) (ts pi : String) (ba : Int)
-    (x : Frame) (o : SCObject) (hts : isEncapsulated ts = true) (hnc : convertsColour pi x.spp = false)
+/-- the same through a codec that is lossless on `codecRegion` (RLE, JPEG-LS: a secondary capture stores as many bits as
+    it allocates, so RLE requests lie inside the region) -/
+theorem sc_encapsulated_decodes (c : CodecImpl) (hc : c.LosslessOn codecRegion) (conv : List Int → List Int) (ts pi : String)
+    (ba : Int) (x : Frame) (o : SCObject) (hts : ts = rle ∨ ts = jpegLs) (hnc : convertsColour pi x.spp = false)
     (h : scBuild c ts pi ba x = .ok o) : scDecode c conv ts o = .ok x.data := by
   obtain ⟨mod, bytes, hmod, henc, rfl⟩ := scBuild_ok c ts pi ba x o h
-  obtain ⟨hspp, _, _, _, _, _⟩ := sc_request ts pi ba x mod hmod
+  obtain ⟨hspp, _, hBA, hBS, _, _⟩ := sc_request ts pi ba x mod hmod
   unfold scDecode
   simp only [hspp]
   have hp : (⟨ts, mod.1, mod.2.1, pi, mod.2.2.2.1, (scParams ts pi mod).planar⟩ : Params) = scParams ts pi mod := rfl
   rw [hp]
-  have := encapsulated_decode c hc conv (scParams ts pi mod) x bytes hts henc
+  have hD : codecRegion (scParams ts pi mod) := by
+    have hts' : (scParams ts pi mod).ts = ts := rfl
+    rcases hts with h | h
+    · exact Or.inl ⟨by rw [hts', h], by rw [hBA, hBS]; omega⟩
+    · exact Or.inr (by rw [hts', h])
+  have henc' : isEncapsulated (scParams ts pi mod).ts = true := by
+    have hts' : (scParams ts pi mod).ts = ts := rfl
+    rw [hts']; rcases hts with h | h <;> rw [h] <;> decide
+  have := encapsulated_decode c codecRegion hc conv (scParams ts pi mod) x bytes henc' hD henc
   have hpi : (scParams ts pi mod).pi = pi := rfl
   rw [hpi, hnc] at this
   simpa using this
